@@ -15,6 +15,8 @@
 #include <cstring>
 #include <csignal>
 #include <fcntl.h>
+#include <linux/sockios.h>
+#include <sys/ioctl.h>
 #include <future>
 #include <map>
 #include <memory>
@@ -54,6 +56,18 @@ void NoDelay(int fd)
 {
   int one = 1; // no Nagle: every peer write is on the wire (and in the library's queue) when write() returns
   ::setsockopt(fd, IPPROTO_TCP, TCP_NODELAY, &one, sizeof(one));
+}
+
+// wait until everything the peer wrote has left its send queue (on loopback: sits in the library's
+// receive queue).  write() alone does not guarantee that: with many small segments the congestion
+// window / delayed ACKs hold data back, and a later reset would discard it.
+void WaitSent(int fd)
+{
+  for(int i = 0; i < 4000; ++i) {
+    int unsent = 0;
+    if(::ioctl(fd, SIOCOUTQNSD, &unsent) != 0 || unsent == 0) return;
+    ::usleep(500);
+  }
 }
 
 void WaitReadable(int fd)
@@ -142,6 +156,8 @@ struct Scen
   void Client(long i)
   {
     int lfd = ::socket(AF_INET, SOCK_STREAM, 0);
+    int one = 1;
+    ::setsockopt(lfd, SOL_SOCKET, SO_REUSEADDR, &one, sizeof(one)); // ports of earlier cases may linger in TIME_WAIT
     sockaddr_in a{};
     a.sin_family = AF_INET;
     a.sin_addr.s_addr = htonl(0x7f000200u + static_cast<uint32_t>(i));
@@ -178,6 +194,8 @@ struct Scen
   void PConnect(long a, long i)
   {
     int fd = ::socket(AF_INET, SOCK_STREAM, 0);
+    int one = 1;
+    ::setsockopt(fd, SOL_SOCKET, SO_REUSEADDR, &one, sizeof(one));
     sockaddr_in me{};
     me.sin_family = AF_INET;
     me.sin_addr.s_addr = htonl(0x7f000100u + static_cast<uint32_t>(i));
@@ -240,11 +258,16 @@ struct Scen
 
   void Close()
   {
+    // the peers reset first: no TIME_WAIT entries are left behind (thousands of cases share the port range)
+    for(auto &p : peerFd) if(p.second >= 0) {
+      linger lg{1, 0};
+      ::setsockopt(p.second, SOL_SOCKET, SO_LINGER, &lg, sizeof(lg));
+      ::close(p.second);
+    }
+    peerFd.clear();
     futs.clear();
     socks.clear();
     accs.clear();
-    for(auto &p : peerFd) if(p.second >= 0) ::close(p.second);
-    peerFd.clear();
     driver.reset();
     sendPool.reset();
   }
@@ -293,6 +316,7 @@ int main()
             if(r <= 0) break; // the library side is gone (destroyed socket): nobody will read this
             off += static_cast<size_t>(r);
           }
+          WaitSent(sc.peerFd[i]);
           if(sc.libFd.count(i) && sc.socks.count(i)) WaitReadable(sc.libFd[i]);
         } else if(w[0] == "close" || w[0] == "rst") {
           long i = num(1);
